@@ -335,18 +335,21 @@ def hasDup : List Str → Bool
   | [] => false
   | x :: r => r.contains x || hasDup r
 
-/-- version per the glyph attributes: `format` 1 or 2, `formatMinor` absent or 0 -/
+/-- version per the glyph attributes: `format` 1 or 2, `formatMinor` absent or 0.  Spellings like `+2`, `02` (format) and
+    `00`, `+0` (formatMinor) that Rust's integer parser reads as 1, 2 resp. 0 are not asserted either way (second component) -/
 def docVersion (d : Doc) : Option Nat × Bool :=
   match d.gattrs with
   | none => (none, false)
   | some as =>
     let minorOk := match get as "formatMinor" with | none => true | some m => m = ['0']
+    -- the minor version is spelled differently but reads as 0
+    let minorOdd := match get as "formatMinor" with | none => false | some m => m ≠ ['0'] && parseU32 10 m == some 0
     match get as "format" with
-    | some ['1'] => (if minorOk then some 1 else none, false)
-    | some ['2'] => (if minorOk then some 2 else none, false)
+    | some ['1'] => (if minorOk then some 1 else none, minorOdd)
+    | some ['2'] => (if minorOk then some 2 else none, minorOdd)
     | some f =>
       -- spellings like "+2" or "02" that Rust's integer parser reads as 1 or 2: not asserted
-      (none, (parseU32 10 f == some 1 || parseU32 10 f == some 2) && minorOk)
+      (none, (parseU32 10 f == some 1 || parseU32 10 f == some 2) && (minorOk || minorOdd))
     | none => (none, false)
 
 def glyphAttrCheck (d : Doc) : List String :=
